@@ -12,7 +12,7 @@ Definition msg7 : message := Msg [x69; x6e] [x07; x02] 2 false.
 
 Definition opening (c : N) (sp : bool) : list event :=
   [ ENew false; EApiCall c (CConnect cfg_persist); EHid (HAcq c); EDial Ok; ETx conn_pkt false Ok;
-    EApiRet c RetFut; ERx (Connack sp 0); EHid HProc; EAll Outgoing (Some []); EFut c true sp 0 [] ].
+    EApiRet c RetFut; ERx (Connack sp 0); EHid HProc; EAll Outgoing (Some []); EHid HProc; EFut c true sp 0 [] ].
 
 (* (a) PUBREL for an id that is not in the incoming store: the processor returns to Receive,
    no PUBCOMP was written *)
